@@ -13,6 +13,7 @@ const ZU: AtomicU32 = AtomicU32::new(0);
 const ZB: AtomicBool = AtomicBool::new(false);
 static RUNS: [AtomicU32; 8] = [ZU; 8];
 static DONE: [AtomicBool; 8] = [ZB; 8];
+static CHILD_STARTED: [AtomicBool; 4] = [ZB; 4];
 
 #[derive(Clone, Copy, Debug, PartialEq)]
 pub enum Act {
@@ -24,6 +25,8 @@ pub enum Act {
     Nested,
     /// spawn a child in a scope
     Scoped,
+    /// spawn a child in a scope that sleeps 2 ms before it finishes: the owner waits in the join at the end of the scope
+    ScopedSlow,
 }
 
 #[derive(Clone, Copy, Debug, PartialEq)]
@@ -41,6 +44,8 @@ pub enum MainAct {
     Unpark(usize),
     /// cancel coroutine i
     Cancel(usize),
+    /// wait until the scoped child of coroutine i has started (no quiescence: the clock must not advance)
+    WaitChild(usize),
 }
 
 #[derive(Clone, Copy, Debug, PartialEq)]
@@ -76,6 +81,19 @@ fn body(i: usize, acts: &'static [Act]) -> impl FnOnce() -> u32 + Send + 'static
                     let r = h.join();
                     assert!(DONE[i + 4].load(Ordering::SeqCst), "nested join returned before the closure finished");
                     assert_eq!(r.ok(), Some(7));
+                }
+                Act::ScopedSlow => {
+                    let mut local = 0u32;
+                    coroutine::scope(|s| {
+                        go!(s, || {
+                            RUNS[i + 4].fetch_add(1, Ordering::SeqCst);
+                            CHILD_STARTED[i].store(true, Ordering::SeqCst);
+                            coroutine::sleep(Duration::from_millis(2));
+                            local = 9;
+                            DONE[i + 4].store(true, Ordering::SeqCst);
+                        });
+                    });
+                    assert_eq!(local, 9);
                 }
                 Act::Scoped => {
                     let mut local = 0u32;
@@ -133,6 +151,7 @@ fn run_off(e: &'static Engine, p: &'static Prog, poll_ns: u64, off: usize) {
                 cancelled[*i] = true;
                 unsafe { hs[*i].coroutine().cancel() }
             }
+            MainAct::WaitChild(i) => e.wait_flag(&CHILD_STARTED[*i]),
         }
     }
     let mut out = String::new();
@@ -187,6 +206,12 @@ fn run_off(e: &'static Engine, p: &'static Prog, poll_ns: u64, off: usize) {
                     e.fail("join_value", &format!("join() of coroutine {} returned an unknown payload", i));
                 }
             }
+        }
+    }
+    // the join of a coroutine that opened a scope returned: its scoped child, if it ever started, has finished
+    for (i, (_, acts)) in p.cos.iter().enumerate() {
+        if (acts.contains(&Act::Scoped) || acts.contains(&Act::ScopedSlow)) && RUNS[i + 4].load(Ordering::SeqCst) == 1 && !DONE[i + 4].load(Ordering::SeqCst) {
+            e.fail("join_early", &format!("join() of coroutine {} returned while the closure of its scoped child was still running", i));
         }
     }
     // children spawned inside ran exactly once as well
@@ -331,6 +356,10 @@ static PROGS: &[Prog] = &[
     Prog { name: "one.nested.w1", workers: 1, cos: &[(Go, &[Nested])], main: &[], wait: Wait::Join },
     Prog { name: "one.nested.w2", workers: 2, cos: &[(Go, &[Nested])], main: &[], wait: Wait::Join },
     Prog { name: "one.scoped.w2", workers: 2, cos: &[(Go, &[Scoped])], main: &[], wait: Wait::Join },
+    // the owner of a scope is cancelled while it waits for its child at the end of the scope (cancellation is disabled
+    // there): the scope, and with it the owner's closure and its join, must not end before the child's closure has
+    Prog { name: "one.scoped_slow.cancel_in_join.w1", workers: 1, cos: &[(Go, &[ScopedSlow])], main: &[WaitChild(0), Cancel(0)], wait: Wait::Join },
+    Prog { name: "one.scoped_slow.cancel_in_join.w2", workers: 2, cos: &[(Go, &[ScopedSlow])], main: &[WaitChild(0), Cancel(0)], wait: Wait::WaitThenJoin },
     Prog { name: "builder.yield.w2", workers: 2, cos: &[(Builder, &[Yield(1)]), (Go, &[Yield(1)])], main: &[], wait: Wait::Join },
     Prog { name: "builder.panic.w1", workers: 1, cos: &[(Builder, &[Yield(1), Panic])], main: &[], wait: Wait::Join },
     Prog { name: "local.yield.w1", workers: 1, cos: &[(Local, &[Yield(1)])], main: &[], wait: Wait::Join },
